@@ -37,7 +37,7 @@ RULE = (
 CLASSES = [
     "crash_before_open", "crash_after_truncate", "crash_mid_write", "crash_before_rename", "crash_after_rename",
     "torn_prefix", "multi_chunk", "buffered_flush_between_files", "cache_grow", "cache_shrink", "threads_off",
-    "reader_between_open_and_rename", "jobdoc", "projdoc", "cache", "migration",
+    "reader_between_open_and_rename", "jobdoc", "projdoc", "cache", "migration", "stray_tmp_before_update",
 ]
 ASSUMPTIONS = [
     "process death is modelled by os._exit before a Python-level fs call; no power loss, no un-fsynced rename reordering",
@@ -71,6 +71,8 @@ def cases(draw):
         c["cache_exists"] = draw(st.booleans())
         c["add"] = draw(st.integers(0, 3))
         c["remove"] = draw(st.integers(0, 2))
+        # a temp file left behind by an earlier, killed update (longer than the next cache)
+        c["stray_tmp"] = draw(st.integers(0, 2)) == 0
         return c
     c["old"] = draw(docs)
     route = draw(st.sampled_from(["setitem", "update", "reset", "clear", "list_append", "buffered"]))
@@ -117,6 +119,11 @@ def build_template(ctx, case):
             ids.append(p2.open_job({"b": i}).init().id)
         for i in range(min(case.get("remove", 0), len(ids))):
             p2.open_job(id=ids[i]).remove()
+        if case.get("stray_tmp"):
+            import gzip as _gz
+
+            junk = _gz.compress(json.dumps({("%032x" % k): {"old": k, "pad": "x" * 40} for k in range(60)}).encode())
+            fsutil.write_file(os.path.join(root, CACHE_FILE + "~"), junk[: len(junk) - 7])  # truncated: the writer was killed
         return root, ids
     old = case.get("old")
     if old is not None:
@@ -285,6 +292,8 @@ def check_after(case, root, ids, old, new, snap_before, where, mms):
     if len(strays) > len(files):
         mms.append(Mismatch("too_many_strays", f"{where}: {len(strays)} stray temp files: {strays}"))
     for p in d["changed"] + d["removed"]:
+        if p == CACHE_FILE + "~":
+            continue  # a stray temp file of an earlier killed update is re-used / consumed by the next one
         if p not in trel:
             mms.append(Mismatch("other_file_changed", f"{where}: {p} changed/removed by an interrupted write"))
 
@@ -319,6 +328,8 @@ def run_case(case, ctx):
             cl.add("cache_grow")
         if case.get("remove", 0) > 0:
             cl.add("cache_shrink")
+        if case.get("stray_tmp"):
+            cl.add("stray_tmp_before_update")
     if sum(1 for t in trace if t[1] == "write") > 1:
         cl.add("multi_chunk")
     evaluations = 1
@@ -460,6 +471,8 @@ CONSTRUCTED = [
     {"target": "cache", "threads": True, "torn": [9], "reader": "raw", "with_reader": True, "old_jobs": 2, "cache_exists": True, "add": 2, "remove": 0},
     {"target": "cache", "threads": True, "torn": [], "reader": "raw", "with_reader": False, "old_jobs": 3, "cache_exists": True, "add": 0, "remove": 2},
     {"target": "cache", "threads": True, "torn": [4], "reader": "raw", "with_reader": False, "old_jobs": 1, "cache_exists": False, "add": 1, "remove": 0},
+    {"target": "cache", "threads": True, "torn": [], "reader": "raw", "with_reader": True, "old_jobs": 2, "cache_exists": True, "add": 0, "remove": 1, "stray_tmp": True},
+    {"target": "cache", "threads": True, "torn": [6], "reader": "raw", "with_reader": False, "old_jobs": 0, "cache_exists": False, "add": 1, "remove": 0, "stray_tmp": True},
 ]
 
 
